@@ -250,12 +250,27 @@ func refv4Canonical(c gen.V4Case) []byte { return refv4.Canonical(c.Ref()) }
 
 // deepRelay wraps inner in depth relay levels (hop counts 0..depth-1 from the inside out); with
 // opts every level also carries an interface-id option.
-func deepRelay(depth int, inner []byte, opts bool) []byte {
+func deepRelay(depth int, inner []byte, opts bool) []byte { return deepRelayHops(depth, inner, opts, 0) }
+
+// deepRelayHops: as deepRelay, with the hop-count FIELD of every level chosen independently of the real nesting
+// depth (a field is just a field: 0 honest, 1 all zero, 2 all 31, 3 all 255, 4 counting the other way).
+func deepRelayHops(depth int, inner []byte, opts bool, hopMode int) []byte {
 	cur := append([]byte{}, inner...)
 	for d := 0; d < depth; d++ {
 		hdr := make([]byte, 34)
 		hdr[0] = 12
-		hdr[1] = byte(d)
+		switch hopMode {
+		case 0:
+			hdr[1] = byte(d)
+		case 1:
+			hdr[1] = 0
+		case 2:
+			hdr[1] = 31
+		case 3:
+			hdr[1] = 255
+		default:
+			hdr[1] = byte(depth - 1 - d)
+		}
 		hdr[17] = byte(d + 1)
 		hdr[33] = byte(d + 2)
 		lvl := append(hdr, 0, 9, byte(len(cur)>>8), byte(len(cur)))
